@@ -37,6 +37,8 @@ mod session;
 mod tls;
 mod tok;
 mod util;
+#[cfg(feature = "verif_hooks")]
+pub mod verif_hooks;
 
 #[cfg(test)]
 mod generate;
